@@ -321,6 +321,40 @@ def _run(rng, bad, n):
                 bad.append((name, "value / shape mismatch: real %s vs model %s" % (np.shape(rv), np.shape(sv))))
         except Exception as e:
             bad.append((name, "raised %s: %s" % (type(e).__name__, str(e)[:120])))
+    # autograd rule used when a lemma installs parameters that require grad: out= with such an operand is refused, and the
+    # property is inherited by results (not by detach)
+    n += 1
+    keep = st.REQUIRES_GRAD[0]
+    try:
+        st.REQUIRES_GRAD[0] = True
+        wr = torch.tensor([[1.0, 2.0], [0.5, -1.0]], dtype=torch.double, requires_grad=True)
+        xr = torch.tensor([1.0, -2.0], dtype=torch.double)
+        ws, xs = _sym(wr.detach()), _sym(xr)
+        ws._rg = True
+
+        def refused(w, x):
+            y = F.linear(x, w) * 2 + 1               # requires grad through w
+            buf = torch.zeros(2, dtype=torch.double) if not isinstance(w, st.SymTensor) else _sym(torch.zeros(2, dtype=torch.double))
+            out = []
+            for call in (lambda: torch.add(y, x, out=buf), lambda: torch.add(y.detach(), x, out=buf), lambda: torch.mv(w, x, out=buf)):
+                try:
+                    call()
+                    out.append(False)
+                except RuntimeError:
+                    out.append(True)
+            with torch.no_grad():
+                try:
+                    torch.mv(w, x, out=buf)
+                    out.append(False)
+                except RuntimeError:
+                    out.append(True)
+            return out
+        if refused(wr, xr) != refused(ws, xs):
+            bad.append(("out= with operands that require grad", "real %s vs model %s" % (refused(wr, xr), refused(ws, xs))))
+    except Exception as e:
+        bad.append(("out= with operands that require grad", "raised %s: %s" % (type(e).__name__, str(e)[:120])))
+    finally:
+        st.REQUIRES_GRAD[0] = keep
     # numpy side: object arrays through SymNd
     z = (rng.integers(-2, 3, size=(2, 3)) + 1j * rng.integers(-2, 3, size=(2, 3))).astype(complex)
     w = (rng.integers(-2, 3, size=(3,)) + 1j * rng.integers(-2, 3, size=(3,))).astype(complex)
